@@ -600,7 +600,7 @@ class Parser:
         if not isinstance(token, TokenInfo):
             return None
         text = token.string
-        idx = text.find("'") if text.find("'") >= 0 else text.find('"')
+        idx = min((i for i in (text.find("'"), text.find('"')) if i >= 0), default=-1)  # the opening quote
         if idx > 0:
             prefix, text = text[:idx].lower(), text[idx:]
             if "p" in prefix:
